@@ -69,6 +69,28 @@ def ch_family(rep, tier, enforced):
     return validate(rep, recs, enforced, "ch")
 
 
+def big_family(rep, tier, enforced):
+    """Long runs (T about 9 000 .. 14 000: clusters larger than 4096 and 8192 windows)."""
+    from .. import corpus
+
+    def build():
+        rng = random.Random(common.seed() * 7011 + 6)
+        jobs = [(9000 + rng.randint(0, 900), 1, 2, 2, 4, rng.randrange(1 << 30)),
+                (13000 + rng.randint(0, 900), 2, 1, 2, 6, rng.randrange(1 << 30))]
+        if tier == "thorough":
+            jobs += [(9000 + rng.randint(0, 5000), rng.choice([1, 2]), rng.choice([1, 2, 3]), rng.choice([2, 3]), 5,
+                      rng.randrange(1 << 30)) for _ in range(10)]
+        return common.pmap(drv_metrics.big_job, jobs)
+    recs = corpus.cached(f"bigruns_{tier}_{common.seed()}", build)
+    for r in recs:
+        rep.regime("long_run_largest_cluster_over_4096" if r.get("largestCluster", 0) > 4096 else "long_run_small_clusters")
+        if r.get("converged") and r.get("allNonEmpty"):
+            rep.regime("long_run_converged_all_non_empty")
+    if not any(r.get("largestCluster", 0) > 4096 for r in recs):
+        raise common.MachineryError("long runs: no cluster above 4096 windows (anti-vacuity)")
+    return validate(rep, recs, enforced, "big")
+
+
 def floor_family(rep, tier, enforced):
     rng = random.Random(common.seed() * 7007 + 3)
     jobs = [(n, eps, how, rng.randrange(1 << 30)) for n in (1, 2, 3, 4) for eps in (0, 1, 2, 3)
